@@ -7,6 +7,7 @@ package harness
 import (
 	"context"
 	"fmt"
+	"runtime"
 	"sync"
 	"sync/atomic"
 	"testing"
@@ -212,24 +213,28 @@ func runC03C(_ *testing.T, c c03cCase) kit.Outcome {
 	}
 	// writers against writers: all threads set different limits at the same moment, many times; afterwards
 	// every share must belong to the limit that finally won
-	var wg2 sync.WaitGroup
-	gate := make(chan struct{})
-	for id := range c.Workers {
-		wg2.Add(1)
-		go func(id int) {
-			defer wg2.Done()
-			<-gate
-			for r := 0; r < 40; r++ {
-				st.SetLimit(1 + (id*7+r*3)%37)
+	for round := 0; round < 30; round++ {
+		var wg2 sync.WaitGroup
+		var gate atomic.Bool
+		for id := range c.Workers {
+			wg2.Add(1)
+			go func(id int) {
+				defer wg2.Done()
+				for !gate.Load() {
+					runtime.Gosched()
+				}
+				for r := 0; r < 4; r++ {
+					st.SetLimit(1 + (id*7+r*3+round*5)%37)
+				}
+			}(id)
+		}
+		gate.Store(true)
+		wg2.Wait()
+		finalLimit := limitOf()
+		for i, n := range names {
+			if got, want := binLimit(i), c03Share(finalLimit, stackBinFracs[n]); got != want {
+				return kit.Viol(c.Kind+":shares-after-concurrent-setlimit", "after %d threads called SetLimit concurrently (round %d) the limit is %d but partition %q has share %d (want %d): shares and limit come from different calls", len(c.Workers), round, finalLimit, n, got, want)
 			}
-		}(id)
-	}
-	close(gate)
-	wg2.Wait()
-	finalLimit := limitOf()
-	for i, n := range names {
-		if got, want := binLimit(i), c03Share(finalLimit, stackBinFracs[n]); got != want {
-			return kit.Viol(c.Kind+":shares-after-concurrent-setlimit", "after %d threads called SetLimit concurrently the limit is %d but partition %q has share %d (want %d): shares and limit come from different calls", len(c.Workers), finalLimit, n, got, want)
 		}
 	}
 	if b := busy(); b != 0 {
